@@ -3,8 +3,10 @@ from props import mmr_common as mc
 
 ID = "C12"
 GEN_TAGS = []
-PROOF_TARGETS = ["proofs/MmrProofs.vo", "proofs/MmrSmall.vo", "proofs/MmrUpdates.vo", "proofs/MmrBatch.vo", "proofs/MmrHistory.vo", "proofs/MmrSuccRej.vo"]
+PROOF_TARGETS = ["proofs/MmrProofs.vo", "proofs/MmrSmall.vo", "proofs/MmrUpdates.vo", "proofs/MmrBatch.vo", "proofs/MmrHistory.vo", "proofs/MmrSuccRej.vo",
+                 "proofs/MmrAppend.vo", "proofs/MmrSuccComplete.vo"]
 PROPS_FILE = "props/C12.v"
+EXTRA_PROPS_FILES = ["props/C12b.v"]
 EXTRACT = "extract/ExtractMmr.vo"
 ORACLE = ("gen_mmr", "mmr.ml")
 HARNESS = "mmr"
